@@ -88,5 +88,12 @@ class Streams:
             self._tapes[name] = t
         return t
 
+    def clone(self, name, as_name):
+        """A second tape with the same seed and the same recorded draws: an identical
+        stream (used to feed two executions the identical random history)."""
+        t = Tape(H(self.run_seed, "stream", name), self._recorded.get(name))
+        self._tapes[as_name] = t
+        return t
+
     def dump(self):
-        return {k: list(t.log) for k, t in self._tapes.items()}
+        return {k: list(t.log) for k, t in self._tapes.items() if "#" not in k}
